@@ -389,6 +389,90 @@ impl Family for RelativeChains {
     }
 }
 
+
+/// A module whose nested identifier equals the scoped identifier of an alias (`module M::T` next to `typealias T = X`
+/// in `M`), and which defines the aliased name too: the name written in the alias is looked up from the alias's
+/// MODULE scope (M, then outwards), so every use of the alias - directly or one link down a chain - designates M::X.
+pub struct ModuleNamedLikeAnAlias;
+impl ModuleNamedLikeAnAlias {
+    fn build(idx: u64) -> (Vec<String>, &'static str) {
+        let chain = idx % 2 == 1; // Outer -> T -> X
+        let x_kind = (idx / 2) % 3; // kind of M::X
+        let other_kind = (idx / 6) % 3; // kind of the decoy M::T::X
+        let usepos = (idx / 18) % 3;
+        let decoy_first = (idx / 54) % 2 == 1;
+        let def = |k: u64, name: &str| match k {
+            0 => format!("struct {name} {{}}"),
+            1 => format!("enum {name} {{ E0 }}"),
+            _ => format!("custom {name}"),
+        };
+        let expected = ["def:struct:M::X", "def:enum:M::X", "def:custom:M::X"][x_kind as usize];
+        let used = if chain { "Outer" } else { "T" };
+        let user = match usepos {
+            0 => format!("struct U {{ f: {used} }}"),
+            1 => format!("interface U {{ o(p: {used}?) }}"),
+            _ => format!("struct U {{ f: Sequence<{used}> }}"),
+        };
+        let main = format!("module M\n{}\ntypealias T = X\n{}{}\n", def(x_kind, "X"), if chain { "typealias Outer = T\n" } else { "" }, user);
+        let decoy = format!("module M::T\n{}\n", def(other_kind, "X"));
+        (if decoy_first { vec![decoy, main] } else { vec![main, decoy] }, expected)
+    }
+}
+impl Family for ModuleNamedLikeAnAlias {
+    fn name(&self) -> String {
+        "module-named-like-an-alias/alias (alone or one link down a chain) x 3 kinds of the aliased definition x 3 kinds of a same-named definition in the module named like the alias x 3 use positions x 2 file orders".into()
+    }
+    fn len(&self) -> u64 {
+        2 * 3 * 3 * 3 * 2
+    }
+    fn describe(&self, idx: u64) -> Value {
+        let (files, exp) = Self::build(idx);
+        json!({"files": files, "every_use_of_the_alias_must_be": exp})
+    }
+    fn run(&self, idx: u64) -> CaseOut {
+        let (files, expected) = Self::build(idx);
+        let mut out = CaseOut::new(hash_str(&format!("c03mna{idx}")));
+        out.validated = 1;
+        out.nontrivial = true;
+        let refs: Vec<&str> = files.iter().map(|s| s.as_str()).collect();
+        let show = || files.join("--- next file ---\n");
+        let fam = "module-named-like-an-alias";
+        match compile_texts(&refs, None) {
+            Err((loc, msg)) => out.violate(format!("c03/{fam}/panic@{loc}"), format!("panic at {loc}: {msg}\n{}", show())),
+            Ok((_ast, sfiles, diags)) => {
+                if let Some(e) = diags.iter().find(|d| d.level == "error") {
+                    out.violate(format!("c03/{fam}/resolvable-reference-rejected/{}", e.code), format!("{} {}\n{}", e.code, e.message, show()));
+                    out.class = "rejected".into();
+                    return out;
+                }
+                // every leaf type below the definition U of the main file
+                let main = sfiles.iter().find(|f| f.raw_text.contains("module M\n")).unwrap();
+                let tree = crate::model::observe::file(main);
+                fn leaves(n: &Node, inside_u: bool, out: &mut Vec<String>) {
+                    let inside = inside_u || n.get("id") == Some("U");
+                    if inside && n.kind == "type" {
+                        if let Some(is) = n.get("is") {
+                            if is.starts_with("def:") || is.starts_with("unpatched") {
+                                out.push(is.to_string());
+                            }
+                        }
+                    }
+                    for c in &n.children {
+                        leaves(c, inside, out);
+                    }
+                }
+                let mut got = vec![];
+                leaves(&tree, false, &mut got);
+                out.class = format!("bound:{}", got.len());
+                if got.is_empty() || got.iter().any(|g| g != expected) {
+                    out.violate(format!("c03/{fam}/bound-differently"), format!("the use of the alias must designate {expected}, observed {got:?}\n{}", show()));
+                }
+            }
+        }
+        out
+    }
+}
+
 pub fn families(_tier: &str) -> Vec<Box<dyn Family>> {
-    vec![Box::new(RelativeChains), Box::new(AliasChains), Box::new(ScopeProduct)]
+    vec![Box::new(RelativeChains), Box::new(AliasChains), Box::new(ModuleNamedLikeAnAlias), Box::new(ScopeProduct)]
 }
